@@ -20,6 +20,22 @@ CLAIMS = {
         note="The regexp engine is a parameter with the contract 'match length within the rest'; utf8.DecodeRune is re-implemented "
              "and compared with the real function on every sampled input.",
         technique="Lean 4 theorems (specification equality per primitive, bounds, in-bounds) + differential correspondence + regenerated facts"),
+    "C10": dict(
+        text="Machine-checked proof (Lean 4) over the model of LeftTrim/RightTrim/Trim inside the parser core, for every file, position, "
+             "token and mode: a left/right trim skips exactly the run of whitespace bytes and accepts iff the run satisfies the mode "
+             "(independent predicate wsOk), the token keeps its own start and value and only a right-trimmed node's end moves past the "
+             "run (c10_ltrim_accept, c10_rtrim_accept, c10_deco_accept for all five nestings); otherwise the result is nil with that "
+             "mode's error at the start of the run / first line break / end of the run (c10_ltrim_reject, c10_rtrim_reject, "
+             "c10_deco_reject_left/right); Parse reports a whitespace error even when the context's furthest error is further "
+             "(c10_parse_reports_ws); and the transparency theorem for token sequences of ANY length with any admissible whitespace in "
+             "every gap (c10_transparent, c10_transparent_shape: same tokens, values and own positions whatever the whitespace). The "
+             "proof attempt for the RightTrim-outermost nesting exposed defect D10 (fixed in /repo). Tied to text/trim.go and "
+             "text/reader.go by a differential run over token sequences x whitespace strings x mode assignments x nestings and by "
+             "regenerated whitespace byte sets and condition lists.",
+        note="Tokens are abstract terminals (hypotheses on Terminal.parse); c10_transparent is stated for single-byte rune tokens. "
+             "LeftTrim over RightTrim over an EMPTY token (a regexp matching the empty string) with both modes rejecting reports the "
+             "right mode's error (documented as an example; no built-in token is empty).",
+        technique="Lean 4 theorems over the run model (unfolding trims on token-like parsers, induction on the token list) + differential correspondence + regenerated facts"),
     "C11": dict(
         text="Machine-checked proof (Lean 4) for every file set built by AddFile from NewFileSet (any number of files, empty files, any "
              "bytes): Position(global position) of every offset 0..len of every file is that file's name and the line/column an "
@@ -102,7 +118,7 @@ def main():
             "serves_properties": [c["property_id"] for c in checks],
             "kind_free_text": "Lean 4 model + theorems (lean/), Go correspondence harness and property oracles (harness/cmd/corr), go/ast fact extractor (harness/cmd/factgen)"}],
         "checks": checks,
-        "notes": old.get("notes", ""),
+        "notes": "See DESIGN.md. Fix commits in /repo: D1 e4fbdfe, D2 56eb012, D3 f1cb0ea, D4 c774f8d+7431821+6b22c65, D6 1fbf724, D7 9025365, D10 f6e0e4b.",
         "not_applicable": na,
     }
     with open(os.path.join(VERIF, "MANIFEST.json"), "w") as f:
